@@ -141,7 +141,8 @@ Set Implicit Arguments.
 
 Inductive pyexc : Type :=
 | PyTypeError | PyValueError | PyKeyError
-| PyNodeDoesNotExistError | PyEdgeDoesNotExistError | PyNetworkXError.
+| PyNodeDoesNotExistError | PyEdgeDoesNotExistError | PyNetworkXError
+| PyAssertionError | PyIndexError.   (* added for tools/translate_traversal.py (PyRtLoop.v) *)
 
 Inductive pyout (R : Type) : Type :=
 | Ret (r : R)
